@@ -249,6 +249,13 @@ func (s *subWorld) evalSubst(c OCase) OLine {
 		c0 := pod.Spec.Containers[0]
 		res := append([]string{}, c0.Args...)
 		res = append(res, c0.Image, c0.Env[0].Value)
+		// a second task (the retry) rendered from the SAME Job object, as the controller does
+		pod1, err := podtaskexecutor.NewPod(&rj, &corev1.PodTemplateSpec{ObjectMeta: rj.Spec.Template.TaskTemplate.Pod.ObjectMeta, Spec: rj.Spec.Template.TaskTemplate.Pod.Spec},
+			tasks.TaskIndex{Retry: 1, Parallel: parallel.GetDefaultIndex()})
+		if err != nil {
+			return nil, "pod: " + err.Error()
+		}
+		res = append(res, pod1.Spec.Containers[0].Args[6], pod1.Spec.Containers[0].Args[0])
 		// the job name differs per repetition: normalise it
 		for k := range res {
 			if res[k] == rj.Name {
